@@ -105,6 +105,9 @@ def result_kind(t):
     return None
 
 
+MAX_ARITY = 3
+
+
 def run_operator(opi):
     """All arities and operand type vectors for one operator."""
     op, text, arity = OPERATORS[opi]
@@ -115,8 +118,8 @@ def run_operator(opi):
     def body(c):
         n = z3.Int("n")
         if arity is None:
-            c.assume(z3.And(n >= 0, n <= 4))
-            nn = c.choose(5, "arity")
+            c.assume(z3.And(n >= 0, n <= MAX_ARITY))
+            nn = c.choose(MAX_ARITY + 1, "arity")
             c.assume(n == nn)
         else:
             nn = arity
@@ -186,7 +189,7 @@ def run_operator(opi):
                 out["candidates"].append(dict(desc, what="error reported at %s, outside the expression" % bad[0].location))
 
     with pysym.instrument():
-        st, complete = pysym.explore(body, on_path, max_paths=20000)
+        st, complete = pysym.explore(body, on_path, max_paths=200000)
     if not complete:
         out["unknown"] += 1
     return out
@@ -481,7 +484,9 @@ def classify(c):
 
 
 def main(tier):
+    global MAX_ARITY
     rep = common.Report("C13", tier, "proof")
+    MAX_ARITY = 3 if tier == "quick" else 4
     jobs = list(range(len(OPERATORS))) + ["positions", "module positions"]
     with multiprocessing.Pool(min(len(jobs), common.ncpu())) as pool:
         results = pool.map(_job, jobs)
@@ -530,7 +535,7 @@ def main(tier):
                               "type_check._type_check_choice_operator", "type_check._type_check_field_location",
                               "type_check._type_check_array_size", "type_check._type_check_field_existence_condition",
                               "type_check._type_check_parameter", "type_check._type_check_passed_parameters"],
-        "bounds": {"operators": "all 16", "operand types": "integer, boolean, two enums, opaque", "function arity": "0..4",
+        "bounds": {"operators": "all 16", "operand types": "integer, boolean, two enums, opaque", "function arity": "0..%d" % MAX_ARITY,
                    "declared/passed parameters": "0..2",
                    "outside": "nesting is covered by the inductive argument, not executed; [requires] and enum-value typing (attribute_checker)"},
         "note": "finite domain: the paths enumerate every (operator, arity, type vector); the solver evaluates the table under each path condition",
